@@ -56,7 +56,10 @@ type SimConfig struct {
 type SimOp struct {
 	K    string `json:"k"` // T | S | K | KA | D
 	Node int    `json:"node"`
-	From int    `json:"from,omitempty"` // S: the share message of keyper From goes to Node
+	From int    `json:"from,omitempty"` // S: the latest share message of keyper From goes to Node
+	Ids  []int  `json:"ids,omitempty"`  // T: positions of the identities the trigger names (default: all)
+	Slot int64  `json:"slot,omitempty"` // T (Gnosis): slot and tx pointer of the trigger row (default SimSlot, SimTxp)
+	Txp  int64  `json:"txp,omitempty"`
 	Msg  int    `json:"msg,omitempty"`  // D: message number
 }
 
@@ -262,7 +265,20 @@ func (p *SimPool) Sim(base int, c SimConfig, ops []SimOp) *SimResult {
 
 	shareMsg := map[int]int{}
 	keysDone := map[[2]int]bool{}
-	trigger := func(i int) {
+	trigger := func(i int, sel []int, slot, txp int64) {
+		if slot == 0 {
+			slot, txp = SimSlot, SimTxp
+		}
+		ids, pre, idBytes := c.Idents, pre, idBytes
+		if len(sel) > 0 {
+			ids, pre, idBytes = nil, nil, nil
+			for _, k := range sel {
+				ids = append(ids, c.Idents[k])
+				b := unhex(c.Idents[k])
+				idBytes = append(idBytes, b)
+				pre = append(pre, identitypreimage.IdentityPreimage(b))
+			}
+		}
 		var st SimStep
 		defer func() {
 			if st.Skipped {
@@ -271,7 +287,7 @@ func (p *SimPool) Sim(base int, c SimConfig, ops []SimOp) *SimResult {
 			coqObs = append(coqObs, st.coq)
 			res.Steps = append(res.Steps, st)
 		}()
-		coqOps = append(coqOps, vh.CApp("OpTrigger", vh.CNat(i), vh.CZ(SimEon), vh.CZ(SimKci), vh.CZ(SimSlot), vh.CZ(SimTxp), coqIds(c.Idents)))
+		coqOps = append(coqOps, vh.CApp("OpTrigger", vh.CNat(i), vh.CZ(SimEon), vh.CZ(SimKci), vh.CZ(slot), vh.CZ(txp), coqIds(ids)))
 		if i < 0 || i >= nn {
 			st.Skipped = true
 			return
@@ -280,7 +296,7 @@ func (p *SimPool) Sim(base int, c SimConfig, ops []SimOp) *SimResult {
 		if c.Flavour == "gnosis" {
 			// newslot.go stores the trigger row before it hands the trigger to the key share handler
 			err := gnosisdatabase.New(w.Pool).SetCurrentDecryptionTrigger(w.Ctx, gnosisdatabase.SetCurrentDecryptionTriggerParams{
-				Eon: SimKci, Slot: SimSlot, TxPointer: SimTxp, IdentitiesHash: crypto.Keccak256(idBytes...)})
+				Eon: SimKci, Slot: slot, TxPointer: txp, IdentitiesHash: crypto.Keccak256(idBytes...)})
 			if err != nil {
 				panic(err)
 			}
@@ -375,7 +391,7 @@ func (p *SimPool) Sim(base int, c SimConfig, ops []SimOp) *SimResult {
 	for _, op := range ops {
 		switch op.K {
 		case "T":
-			trigger(op.Node)
+			trigger(op.Node, op.Ids, op.Slot, op.Txp)
 		case "D":
 			deliver(op.Msg, op.Node)
 		case "S":
@@ -470,4 +486,13 @@ func (p *SimPool) throughMiddleware(w *World, fl string, mat *Material, i int, m
 		return []p2pmsg.Message{msg}, nil
 	}
 	return rec.Sent, err
+}
+
+// DumpTable renders one table of world i (debugging aid).
+func (p *SimPool) DumpTable(i int, table string) string {
+	s := ""
+	for _, r := range p.worlds[i].Srv.Store().Table(table).Rows() {
+		s += fmt.Sprintf("%v\n", r)
+	}
+	return s
 }
